@@ -12,6 +12,7 @@ A construct outside the supported fragment raises Undecided: the rule then recor
 never turns that into a violation.
 """
 import ast
+import os
 import collections
 import importlib
 
@@ -490,6 +491,128 @@ class _Super:
         self.after = after
 
 
+class _GenExit(BaseException):
+    """GeneratorExit for an interpreted generator: raised at its suspended `yield` when it is closed or dropped, so that the
+    `finally` blocks of the interpreted body run (a scope is popped) exactly as CPython would run them."""
+
+
+class _GenState:
+    """The frame of an interpreted generator.  The body runs in a thread of its own that holds the interpreter only between a
+    resume and the next `yield` (strict hand-over through two semaphores: never two threads at once), which gives the recursive
+    interpreter real generator semantics: nothing runs before the first next(), each next() runs to the next yield, close() --
+    or dropping the last reference -- raises at the suspended yield."""
+    def __init__(self, ev, func, env):
+        import threading
+        self.ev, self.func, self.env = ev, func, env
+        self.to_gen, self.to_con = threading.Semaphore(0), threading.Semaphore(0)
+        self.thread = None
+        self.done = self.running = self.closing = False
+        self.msg = None
+        self.depth = ev.depth
+
+    def _run(self):
+        self.to_gen.acquire()
+        try:
+            if self.closing:
+                self.msg = ("return", None)
+            else:
+                try:
+                    self.ev.block(self.func.node.body, self.env, self.func)
+                    self.msg = ("return", None)
+                except _Return:
+                    self.msg = ("return", None)
+                except _GenExit:
+                    self.msg = ("return", None)
+                except BaseException as e:      # PyRaise, Undecided, an interpreter error: all surface at the consumer's next()
+                    self.msg = ("raise", e)
+        finally:
+            self.done = True
+            self.to_con.release()
+
+    def _switch(self):
+        ev = self.ev
+        mine = ev.depth
+        ev.depth = self.depth
+        self.running = True
+        self.to_gen.release()
+        while not self.to_con.acquire(timeout=2.0):
+            if not self.thread.is_alive():
+                self.running = False
+                self.done = True
+                ev.depth = mine
+                raise Undecided("generator thread ended without an answer")
+        self.running = False
+        self.depth = ev.depth
+        ev.depth = mine
+        return self.msg
+
+    def resume(self):
+        if self.done:
+            raise StopIteration
+        if self.running:
+            raise PyRaise("ValueError", "generator already executing")
+        if self.thread is None:
+            import threading
+            self.thread = threading.Thread(target=self._run, daemon=True)
+            self.thread.start()
+        kind, val = self._switch()
+        if kind == "yield":
+            return val
+        if kind == "raise":
+            raise val
+        raise StopIteration
+
+    def suspend(self, value):
+        """called by the body's thread at a `yield`"""
+        self.msg = ("yield", value)
+        self.to_con.release()
+        self.to_gen.acquire()
+        if self.closing:
+            raise _GenExit()
+
+    def close(self):
+        if self.done or self.running:
+            return
+        if self.thread is None:
+            self.done = True
+            return
+        self.closing = True
+        kind, val = self._switch()
+        if kind == "raise" and not isinstance(val, _GenExit):
+            raise val
+        if kind == "yield":
+            self.done = True
+            raise PyRaise("RuntimeError", "generator ignored GeneratorExit")
+
+
+class LazyGen:
+    """The generator object handed to interpreted (and native) code."""
+    def __init__(self, state):
+        self._st = state
+
+    def __iter__(self):
+        return self
+
+    def __next__(self):
+        return self._st.resume()
+
+    def close(self):
+        self._st.close()
+
+    def __del__(self):
+        # dropping the last reference closes the generator (CPython's reference counting does so at once); not while the process
+        # is shutting down, when the body's (daemon) thread no longer runs
+        import sys
+        st = self._st
+        if sys.is_finalizing() or st.done or st.thread is None or not st.thread.is_alive():
+            st.done = True
+            return
+        try:
+            st.close()
+        except BaseException:
+            pass
+
+
 class Ev:
     def __init__(self, prog, fuel=20000, real_errors=False):
         self.prog = prog
@@ -502,6 +625,7 @@ class Ev:
         self.builtins = {}          # extra builtins for a scenario (a fake `open`)
         self.ext = {}               # replacements for library names, by dotted name ("sys": stub)
         self.real_errors = real_errors      # True: ValidationError(...) instantiates the package's own class
+        self.lazy = os.environ.get("SA_TOKEVAL_EAGER") != "1"      # generator functions run on demand (threads, strict hand-over)
 
     def preset(self, modname, name, value):
         """Fix the value of a module-level binding (e.g. replace a class built from a bundled file by a stub)."""
@@ -665,6 +789,11 @@ class Ev:
             yields = []
             env["__yields__"] = yields
             env["__on_yield__"] = on_yield
+            if func.is_generator and on_yield is None and self.lazy:
+                # calling a generator function runs nothing: the body starts at the first next()
+                st = _GenState(self, func, env)
+                env["__gen__"] = st
+                return LazyGen(st)
             ret = None
             try:
                 self.block(node.body, env, func)
@@ -985,7 +1114,27 @@ class Ev:
                                                                              **{k.arg: self.expr(k.value, env, func) for k in ce.keywords})
         else:
             cm = self.expr(ce, env, func)
-        if isinstance(cm, (Obj, Tok)) or not hasattr(cm, "__enter__"):
+        if isinstance(cm, Obj):
+            # a context manager written as a package class: its own __enter__ / __exit__, evaluated
+            enter, exit_ = self.find_method(cm.cls, "__enter__"), self.find_method(cm.cls, "__exit__")
+            if enter is None or exit_ is None:
+                raise PyRaise("AttributeError", "__enter__")
+            val = self.call_func(enter, [cm], {})
+            if item.optional_vars is not None:
+                self.assign(item.optional_vars, val, env, func)
+            try:
+                self.with_stmt(st, i + 1, env, func)
+            except PyRaise as pr:
+                if not self.truth(self.call_func(exit_, [cm, pr.cls if pr.cls is not None else pr.name, pr.obj if pr.obj is not None else pr, None], {})):
+                    raise
+                return
+            except BaseException:
+                # return / break / continue out of the block, or the generator being closed: the exit runs without an exception
+                self.call_func(exit_, [cm, None, None, None], {})
+                raise
+            self.call_func(exit_, [cm, None, None, None], {})
+            return
+        if isinstance(cm, Tok) or not hasattr(cm, "__enter__"):
             raise Undecided("with on %r" % type(cm).__name__)
         val = self.native(cm.__enter__)
         if item.optional_vars is not None:
@@ -1303,6 +1452,11 @@ class Ev:
                 else:
                     d[self.expr(k, env, func)] = self.expr(v, env, func)
             return d
+        if isinstance(e, ast.GeneratorExp) and self.lazy:
+            # a generator expression evaluates its first iterable at once and everything else on demand (`any(...)` stops early)
+            en = dict(env)
+            first = self.native(iter, self.expr(e.generators[0].iter, en, func))
+            return self.lazy_comp(e.generators, 0, en, func, e.elt, first)
         if isinstance(e, (ast.ListComp, ast.SetComp, ast.GeneratorExp)):
             out = []
             self.comp(e.generators, 0, dict(env), func, lambda en: out.append(self.expr(e.elt, en, func)))
@@ -1336,11 +1490,17 @@ class Ev:
             if env.get("__on_yield__") is not None:
                 env["__on_yield__"](v)      # contextmanager: the with-body runs here, inside the generator's try/finally
                 return None
+            if env.get("__gen__") is not None:
+                env["__gen__"].suspend(v)
+                return None
             env["__yields__"].append(v)
             return None
         if isinstance(e, ast.YieldFrom):
             for v in self.native(iter, self.expr(e.value, env, func)):
-                env["__yields__"].append(v)
+                if env.get("__gen__") is not None:
+                    env["__gen__"].suspend(v)
+                else:
+                    env["__yields__"].append(v)
             return None
         if isinstance(e, ast.Lambda):
             cache = self.__dict__.setdefault("_defs_by_node", {})
@@ -1356,6 +1516,18 @@ class Ev:
             env[e.target.id] = v
             return v
         raise Undecided("expression %s" % type(e).__name__)
+
+    def lazy_comp(self, gens, i, env, func, elt, first=None):
+        if i == len(gens):
+            yield self.expr(elt, env, func)
+            return
+        g = gens[i]
+        it = first if first is not None else self.native(iter, self.expr(g.iter, env, func))
+        for x in it:
+            self.tick()
+            self.assign(g.target, x, env, func)
+            if all(self.truth(self.expr(c, env, func)) for c in g.ifs):
+                yield from self.lazy_comp(gens, i + 1, env, func, elt)
 
     def comp(self, gens, i, env, func, emit):
         if i == len(gens):
